@@ -102,3 +102,81 @@ def enclosing_stmt(node, func):
     g = cfg_of(func)
     cn = g.node_for(node)
     return cn.ast if cn is not None else None
+
+
+# ---- loops ---------------------------------------------------------------------
+
+def for_loop_info(s):
+    """Describe `for (T v = lo; v < hi; ++v)` style loops. Returns dict or None."""
+    ch = list(inner(s))
+    if s.get("kind") != "ForStmt" or len(ch) < 5:
+        return None
+    init, _cv, cond, inc, body = ch[:5]
+    if not (init.get("kind") and cond.get("kind") and inc.get("kind")):
+        return None
+    var = None
+    lo = None
+    if init.get("kind") == "DeclStmt":
+        vds = [d for d in inner(init) if d.get("kind") == "VarDecl"]
+        if vds:
+            var = vds[0]
+            ic = children(var)
+            lo = canon(ic[-1]) if ic else None
+    if var is None:
+        return None
+    v = ("var", var.get("id"), var.get("name"))
+    cc = canon(cond)
+    hi = None
+    if cc[0] == "bin" and cc[1] in ("<", "<=", "!=", ">", ">="):
+        l, r = cc[2], cc[3]
+        if l == v and cc[1] in ("<", "!="):
+            hi = r
+        elif l == v and cc[1] == "<=":
+            hi = ("bin", "+", r, ("lit", "1"))
+        elif l[0] == "bin" and l[1] == "+" and l[2] == v and cc[1] == "<":
+            hi = ("bin", "-", r, l[3])
+        elif r == v and cc[1] == ">":
+            hi = l
+    ic = canon(inc)
+    step = None
+    if ic[0] == "un" and ic[1] == "++" and ic[2] == v:
+        step = 1
+    elif ic[0] == "un" and ic[1] == "--" and ic[2] == v:
+        step = -1
+    elif ic[0] == "bin" and ic[1] == "+=" and ic[2] == v and ic[3] == ("lit", "1"):
+        step = 1
+    return {"var": v, "decl": var, "lo": lo, "hi": hi, "cond": cc, "step": step, "body": body, "inc": inc, "stmt": s}
+
+
+def loop_has_early_exit(body):
+    """break / return / throw inside a loop body (not inside a nested loop for break)."""
+    def rec(n, in_nested):
+        k = n.get("kind")
+        if k in ("ReturnStmt", "CXXThrowExpr", "GotoStmt"):
+            return n
+        if k == "BreakStmt" and not in_nested:
+            return n
+        if k == "LambdaExpr":
+            return None
+        nested = in_nested or k in ("ForStmt", "WhileStmt", "DoStmt", "CXXForRangeStmt", "SwitchStmt")
+        for c in inner(n):
+            if isinstance(c, dict) and c.get("kind"):
+                r = rec(c, nested)
+                if r is not None:
+                    return r
+        return None
+    return rec(body, False)
+
+
+def expand_locals(ctx, func, c, depth=0):
+    """Substitute single-assignment local variables by the canonical form of their initialiser."""
+    if depth > 12 or not isinstance(c, tuple):
+        return c
+    if c and c[0] == "var":
+        d = func.unit.by_id.get(c[1])
+        if d is not None and d.get("kind") == "VarDecl" and d.get("_rangevar") is None:
+            init = children(d)
+            if init and not var_write_nodes(ctx, func, [c[1]]):
+                return expand_locals(ctx, func, canon(init[-1]), depth + 1)
+        return c
+    return tuple(expand_locals(ctx, func, x, depth + 1) if isinstance(x, tuple) else x for x in c)
